@@ -72,6 +72,10 @@ ASSUMPTIONS = [
     'a "wrong key" is one that differs from the manager\'s key as an HMAC-MD5 '
     'key (key + zero bytes is the same HMAC key by construction of HMAC and '
     'is accepted; not counted as a defect)',
+    'sensitivity: 8/8 hand-written mutants (mutants/C20-*.patch) are killed by '
+    'the quick tier at seed 1 on a tree where the IteratorProxy._exposed typo '
+    'is repaired (on the unrepaired tree every run already stops at the '
+    'Iterator regression replay)',
     'Pool referents: 1-2 workers, no timeouts / maxtasksperchild, failing '
     'tasks all raise the same exception, no chunked imap; the reference is a '
     'local billiard Pool; the Pool referent is never asked to terminate '
